@@ -11,6 +11,8 @@ import DisjointImpls.Validate
 import DisjointImpls.Canon
 import DisjointImpls.Group
 import DisjointImpls.Expand
+import DisjointImpls.ExpandOK
+import DisjointImpls.Lemmas.ExpandLemmas
 import DisjointImpls.Lemmas.MatchSound
 import DisjointImpls.Lemmas.RevSubLemmas
 import DisjointImpls.Lemmas.GroupLemmas
@@ -70,13 +72,61 @@ def handleExpand (args : List Sx) : Sx :=
             .list [htSx,
               (match helperImpls idx g with
                | some hs => .list (hs.map T.toSx)
-               | none => .list [.sym "panic"]), mi]))]
+               | none => .list [.sym "panic"]), mi,
+              -- hypotheses of C01_expandOK_of_expand evaluated on this family of the model's grouping
+              boolSx (expandWF g), boolSx (wildcardsFixed g)]))]
       | .unableToForm _ => .list [.sym "unable"]
       | .panic _ => .list [.sym "panic"]
   | _ => .list [.sym "bad-args"]
 
+/-- type parentheses / invisible groups removed everywhere (harness: `shape.unwrap`) -/
+partial def unwrapT : T → T
+  | .node k as ks =>
+      if (k == "Type::Paren" || k == "Type::Group") && !ks.isEmpty then unwrapT (ks.getLast?.getD (.node "?" [] []))
+      else .node k as (ks.map unwrapT)
+  | t => t
+
+/-- an `ItemImpl` with the wrappers of its trait path and self type removed (harness: `shape.unwrap_header`) -/
+def unwrapHeader : T → T
+  | .node "ItemImpl" as [a, d, u, g, tr, s, items] => .node "ItemImpl" as [a, d, u, g, unwrapT tr, unwrapT s, items]
+  | t => t
+
+/-- `expandok <gid> <idents> <payloads> <main> <helper_1> … <helper_n> -- <item_1> … <item_n>`:
+    `ExpandOK` (ExpandOK.lean) evaluated on real trees. `idents` = `List [Tuple [Bounded [b], TraitBound [p], Ident [a]] …]`,
+    `payloads` = `List [List [Some [p] | None …] …]`, `main` = `Some [item]` or `None` (as for `family`); the members'
+    substitutions are computed as for `family`: `sup (unwrap gid) (header of the unwrapped item)`.
+    Response: `(expandok <all> <same-length> (<helper_1> … <helper_n>) <main>)`, every entry `0`/`1`. -/
+def handleExpandOK (args : List Sx) : Sx :=
+  let (pre, post) := args.span (fun a => match a with | .sym "--" => false | _ => true)
+  match pre.filterMap T.ofSx, (post.drop 1).filterMap T.ofSx with
+  | gid :: identsT :: rowsT :: mainT :: helpers, items =>
+      let idents : List (BKey × String) := match identsT with
+        | .node "List" [] xs => xs.filterMap (fun x => match x with
+            | .node "Tuple" [] [.node "Bounded" [] [b], .node "TraitBound" [] [p], .node "Ident" [a] []] => some ((b, p), a)
+            | _ => none)
+        | _ => []
+      let rows : List (List (Option T)) := match rowsT with
+        | .node "List" [] xs => xs.map decodeRow
+        | _ => []
+      let thetas : List Subst := items.map (fun it => match sup (unwrapT gid) (mkHdr (unwrapHeader it)) with
+        | .yes σ _ => σ
+        | _ => [])
+      let keys := XOK.keysOf idents
+      let inherent := XOK.kind (XOK.kid gid 0) == "None"
+      let lenOK := helpers.length == items.length
+      let perHelper := (List.range (min helpers.length items.length)).map (fun i =>
+        XOK.checkHelper inherent keys (items.getD i XOK.dummy) (helpers.getD i XOK.dummy) (rows.getD i []) (thetas.getD i []))
+      match mainT with
+      | .node "Some" [] [m] =>
+          let mainOK := XOK.checkMain inherent gid keys m
+          .list [.sym "expandok", boolSx (expandOKCore gid idents rows items thetas helpers m), boolSx lenOK,
+            .list (perHelper.map boolSx), boolSx mainOK]
+      | _ => .list [.sym "expandok", boolSx false, boolSx lenOK, .list (perHelper.map boolSx), .sym "no-main"]
+  | _, _ => .list [.sym "bad-args"]
+
 def handle (cmd : String) (args : List Sx) : Sx :=
   if cmd == "validate" then handleValidate args else
+  if cmd == "expandok" then handleExpandOK args else
   if cmd == "expand" then handleExpand args else
   match cmd, args.filterMap T.ofSx with
   | "sup", [a, b] => rToSx (sup a b)
